@@ -35,10 +35,10 @@ def gen(R, tier):
         case['features'] = sorted(set(case['features']))
         case['constructor'] = 'string'
         return case
-    if R.chance(0.2):
+    if R.chance(0.25):
         # sulfur next to aromatic rings ('Sc' in the text), descriptors after such letter pairs; lower-case quinoid
         # rings with cut exocyclic double bonds; fused aromatic systems
-        case = resgen.gen_cut_string(R, tier, min_frags=2, classes=[c for c in molgen.MOL_CLASSES if c['name'] in ('thioaryl', 'quinoid', 'quinoid', 'fused_aromatic')])
+        case = resgen.gen_cut_string(R, tier, min_frags=2, classes=[c for nm in ('thioaryl', 'thioaryl', 'thioaryl', 'quinoid', 'quinoid', 'fused_aromatic') for c in molgen.MOL_CLASSES if c['name'] == nm])
     else:
         case = resgen.gen_resolvable(R, tier, kinds=('fragset', 'fragset', 'fragset', 'cut', 'levels', 'multicut', 'shared'))
     if case is not None:
